@@ -37,6 +37,21 @@ FINDINGS = [
     {'id': 'F-C14-1', 'property': 'C14', 'status': 'open',
      'what': 'a void element with text: html writes <br>x, xhtml writes <br /> (text dropped)',
      'witness': {'kind': 'tree', 'tree': ['e', 'br', [], 'x', [], None]}},
+    # the same serializer behaviour reached from a DOCUMENT: md_in_html builds the elements of a `markdown="1"` container from the
+    # raw tags; text that follows a block-level void tag on the same line becomes the TEXT of that void element
+    {'id': 'F-C14-2', 'property': 'C14', 'status': 'open',
+     'what': 'md_in_html: text after a block-level void tag inside a markdown="1" container (`<div markdown="1"><hr>x`) becomes the text of '
+             'the void element; html writes `<hr>x`, xhtml writes `<hr />` and the text is lost (document-level form of F-C14-1)',
+     'witness': {'kind': 'doc', 'src': '<div markdown="1"><hr>x', 'extensions': ['md_in_html']}},
+    # toc.render_inner_html serialises the heading with the format-dependent serializer and un-escapes the STRING: a backslash-escaped
+    # `>` becomes a raw `>` inside an attribute value, strip_tags cuts the tag there and keeps its rest (` />` / `>` / `b="b"` / `b`)
+    {'id': 'F-C14-3', 'property': 'C14', 'status': 'open',
+     'what': 'toc: a backslash-escaped `>` inside an attribute value of an element in a heading (image/link title, attr_list value) makes the '
+             'generated heading id and the toc entry depend on output_format (`# x![a](s "t\\>b")y`: id="xby" in html, id="xb-y" in xhtml)',
+     'witness': {'kind': 'doc', 'src': '# x![a](s "t\\>b")y', 'extensions': ['toc']}},
+    {'id': 'F-C14-3', 'property': 'C14', 'status': 'open',
+     'what': 'toc: a backslash-escaped `>` inside an attribute value of an element in a heading: the toc entry text depends on output_format',
+     'witness': {'kind': 'doc', 'src': '# ![a](s "t\\>")\n\n[TOC]', 'extensions': ['toc']}},
 ]
 
 # ------------------------------------------------------------------------------------------------ (0) escapers
@@ -290,13 +305,103 @@ BLOCKY = ['a  \nb', '***', '![alt](/u "alt")', '<div>\n*raw* <br> <hr/>\n</div>'
           '<p>para <img alt=alt></p>', '<script>a<br>b</script>', '<!-- c <br> -->', '    code <br />', '<?php <br> ?>', 'a\\\nb', '&amp; &lt; <b>&</b>']
 
 
-def check_doc(src, exts):
+def _void_probe(strip):
+    """an extension whose tree processor runs LAST (after `unescape`): counts the void elements (serializers.HTML_EMPTY) that carry text
+    or children in the final tree and, with `strip`, empties them"""
+    from markdown.treeprocessors import Treeprocessor
+    from markdown.extensions import Extension
+    from markdown.serializers import HTML_EMPTY
+
+    class Probe(Treeprocessor):
+        hits = 0
+
+        def run(self, root):
+            for el in root.iter():
+                if isinstance(el.tag, str) and el.tag.lower() in HTML_EMPTY and (el.text or len(el)):
+                    self.hits += 1
+                    if strip:
+                        el.text = None
+                        for c in list(el): el.remove(c)
+
+    class Ext(Extension):
+        def extendMarkdown(self, md):
+            self.probe = Probe(md)
+            md.treeprocessors.register(self.probe, 'c14_void_probe', -1000)
+    return Ext()
+
+
+def in_region_void_content(src, exts):
+    """NARROW region of F-C14-2: the final tree of the document has a void element with text or children, AND with exactly that
+    content removed (nothing else changed) the document satisfies the requirement -- i.e. void content is the whole difference"""
+    import markdown
+    hits = 0
+    for fmt in ('html', 'xhtml'):
+        e = _void_probe(False)
+        md = markdown.Markdown(extensions=list(exts) + [e], output_format=fmt)
+        with time_limit(20): md.convert(src)
+        hits += e.probe.hits
+    if not hits: return False
+    probs, _ = check_doc(src, exts, strip_void_content=True)
+    return not probs
+
+
+ESC_GT = '\x0262\x03'      # what the backslash escape `\\>` is in the tree until the last post-processor: STX 62 ETX
+
+
+def _heading_gt_probe(neutralise):
+    """an extension whose tree processor runs directly BEFORE toc's: counts the attribute values of elements inside h1-h6 (the heading
+    itself included) that contain a backslash-escaped `>` and, with `neutralise`, replaces that escape there by the letters GT"""
+    from markdown.treeprocessors import Treeprocessor
+    from markdown.extensions import Extension
+
+    class Probe(Treeprocessor):
+        hits = 0
+
+        def run(self, root):
+            for h in root.iter():
+                if not (isinstance(h.tag, str) and re.fullmatch(r'[hH][1-6]', h.tag)): continue
+                for el in h.iter():
+                    for k, v in list(el.attrib.items()):
+                        if isinstance(v, str) and ESC_GT in v:
+                            self.hits += 1
+                            if neutralise: el.set(k, v.replace(ESC_GT, 'GT'))
+
+    class Ext(Extension):
+        active = False
+
+        def extendMarkdown(self, md):
+            self.probe = Probe(md)
+            prio = {name: pr for name, pr in md.treeprocessors._priority}.get('toc') if 'toc' in md.treeprocessors else None
+            if prio is not None:
+                self.active = True
+                md.treeprocessors.register(self.probe, 'c14_heading_gt_probe', prio + 0.5)
+    return Ext()
+
+
+def in_region_toc_escaped_gt(src, exts):
+    """NARROW region of F-C14-3: the toc tree processor is registered, some element inside a heading has an attribute value with a
+    backslash-escaped `>` when toc runs, AND with exactly those escapes replaced (nothing else changed) the document satisfies the
+    requirement -- i.e. these escapes are the whole difference"""
+    import markdown
+    hits = 0
+    for fmt in ('html', 'xhtml'):
+        e = _heading_gt_probe(False)
+        md = markdown.Markdown(extensions=list(exts) + [e], output_format=fmt)      # the probe is last in the list: toc is registered by then
+        if not e.active: return False
+        with time_limit(20): md.convert(src)
+        hits += e.probe.hits
+    if not hits: return False
+    probs, _ = check_doc(src, exts, probes=lambda: [_heading_gt_probe(True)])
+    return not probs
+
+
+def check_doc(src, exts, strip_void_content=False, probes=None):
     """-> (problems, info)"""
     import markdown
     probs = []; info = {}
     outs = {}
     for fmt in ('html', 'xhtml'):
-        md = markdown.Markdown(extensions=list(exts), output_format=fmt)
+        md = markdown.Markdown(extensions=list(exts) + ([_void_probe(True)] if strip_void_content else []) + (probes() if probes else []), output_format=fmt)
         with time_limit(20):
             outs[fmt] = md.convert(src)
     info['differ'] = outs['html'] != outs['xhtml']
@@ -375,8 +480,15 @@ def search(driver, rng, n):
         bump('docs'); bump('docs_' + kind)
         if info['differ']: bump('docs_outputs_differ'); seen.add(('d', src, tuple(exts)))
         if info['readable']: bump('docs_both_strictly_readable')
+        fid = None
+        if probs:
+            try:
+                if in_region_void_content(src, exts): fid = 'F-C14-2'; bump('docs_in_region_F-C14-2')
+                elif in_region_toc_escaped_gt(src, exts): fid = 'F-C14-3'; bump('docs_in_region_F-C14-3')
+            except Exception:
+                fid = None
         for code, obs, req in probs:
-            viol.append(_viol('doc', src, {'extensions': exts}, code, obs, req))
+            viol.append(_viol('doc', src, {'extensions': exts}, code, obs, req, fid))
         if len(samples) < 4 and info['differ']: samples.append({'kind': 'doc', 'src': src, 'extensions': exts})
     return {'cases': cases, 'distinct': len(seen), 'violations': viol, 'samples': samples, 'dist': dist}
 
